@@ -92,6 +92,13 @@ func runHistory(c *core.Ctx, calls []int, kind string) {
 			c.Violation(sig, d)
 			return
 		}
+		if why := p.CheckOptions(); why != "" {
+			c.Violation("shared-ApplyOptions-modified", map[string]any{"history_kind": kind, "why": why, "call": cl, "position": n, "preceding_calls": desc(n), "patch": clip(p.Inputs[p.PatchInputs[cl.Patch]], 1200)})
+			for i := range p.shared {
+				*p.shared[i] = p.sharedS[i]
+			}
+			return
+		}
 		if live != nil && len(live) > 0 && !aliasesInput(p, live) {
 			kept = append(kept, retainedOut{ci, live, append([]byte(nil), live...)})
 		}
